@@ -118,6 +118,7 @@ macro_rules! resolve_sr {
     };
 }
 resolve_sr!(c03_resolve_sr, grm_u8, u8, false);
+resolve_sr!(c03_resolve_sr_u16, grm_u16, u16, false);
 resolve_sr!(c03_resolve_sr_u32, grm_u32, u32, false);
 resolve_sr!(c03_witness, grm_w, u8, true);
 
